@@ -371,3 +371,56 @@ func VH_SEQ_BlockIssuance() {
 	vh.Assert(vh.And(len(ms.sfes) == 0, len(ms.fces) == 0, len(ms.v2fces) == 0, ms.siafundTaxRevenue == s.SiafundTaxRevenue), "empty block changes siafunds, contracts or the pool")
 	vh.Assert(vh.And(ms.cie.ID == bid, ms.cie.ChainIndex.Height == h, ms.cie.ChainIndex.ID == bid), "chain index element wrong")
 }
+
+// v1 input authorisation at validator level: an accepted 1-of-1 ed25519 input
+// carries a signature by the listed key over the whole-transaction hash, or over
+// the partial hash of exactly the fields its CoveredFields name (what those
+// hashes bind is C12)
+func VH_SEQ_V1SigAuth() {
+	_, s := vhWorld("w")
+	var t types.Transaction
+	t.SiacoinInputs = make([]types.SiacoinInput, 1)
+	t.SiacoinOutputs = make([]types.SiacoinOutput, 1)
+	t.Signatures = make([]types.TransactionSignature, 1)
+	t.SiacoinInputs[0].UnlockConditions.PublicKeys = []types.UnlockKey{{Key: make([]byte, 32)}}
+	t.Signatures[0].Signature = make([]byte, 64)
+	whole := vh.Choice("whole", 2) == 1
+	if !whole {
+		t.Signatures[0].CoveredFields.SiacoinInputs = make([]uint64, 1)
+		t.Signatures[0].CoveredFields.SiacoinOutputs = make([]uint64, 1)
+	}
+	vh.Fill("t", &t)
+	t.SiacoinInputs[0].UnlockConditions.PublicKeys[0].Algorithm = types.SpecifierEd25519
+	t.SiacoinInputs[0].UnlockConditions.SignaturesRequired = 1
+	t.Signatures[0].CoveredFields.WholeTransaction = whole
+	var ts V1TransactionSupplement
+	ts.SiacoinInputs = make([]types.SiacoinElement, 1)
+	vh.Fill("supp", &ts)
+	ts.SiacoinInputs[0].ID = vh.GenuineID("supp.sc0")
+	vhGenuineV1(s, ts)
+	if ValidateTransaction(NewMidState(s), t, ts) != nil {
+		vh.Reach("rejected")
+		return
+	}
+	sig := t.Signatures[0]
+	uc := t.SiacoinInputs[0].UnlockConditions
+	vh.Assert(vh.And(sig.ParentID == types.Hash256(t.SiacoinInputs[0].ParentID), sig.PublicKeyIndex == 0), "accepted signature does not name the input and its key")
+	vh.Assert(uc.UnlockHash() == ts.SiacoinInputs[0].SiacoinOutput.Address, "unlock conditions do not hash to the parent's address")
+	vh.Assert(t.SiacoinInputs[0].ParentID == ts.SiacoinInputs[0].ID, "input accepted for a parent that was not supplied")
+	var h types.Hash256
+	if whole {
+		h = s.WholeSigHash(t, sig.ParentID, sig.PublicKeyIndex, sig.Timelock, sig.CoveredFields.Signatures)
+	} else {
+		h = s.PartialSigHash(t, sig.CoveredFields)
+	}
+	var pk types.PublicKey
+	var sg types.Signature
+	copy(pk[:], uc.PublicKeys[0].Key)
+	copy(sg[:], sig.Signature)
+	vh.Assert(vh.SigOK(pk, h, sg), "v1 input accepted without a valid signature of its key over the covered content")
+	if whole {
+		vh.Reach("accepted-whole")
+	} else {
+		vh.Reach("accepted-partial")
+	}
+}
